@@ -663,7 +663,7 @@ def _all_case(ctx, k, malformed=False):
 # --- default values as regenerated obligations (Generated/Defaults.lean <- harness/translate_defaults.py; stream defaults[...])
 import defaults_stream  # noqa: E402
 from common import all_pre_build as pre_build  # noqa: E402,F401,F811  (runs EVERY translate_*.py)
-LEAN_MODULES += ["PyomaVerif.Props.WiringDefaults"]
+LEAN_MODULES += ["PyomaVerif.Props.WiringDefaultsC07"]
 THEOREMS += ["PV.WiringDefaults.C07_defaults"]
 
 
